@@ -115,7 +115,8 @@ def _gen_h2(rng, n, tier):
     t = 0.0
     client, marks, by_tag = [], [], {}
     first = rng.choice(["preface", "preface", "late_preface", "h2c"])
-    rspec = {"kind": "h2", "credit": "auto"}
+    # responses are 2 bytes: a client that never sends WINDOW_UPDATE is just as legal, and says nothing after its last request
+    rspec = {"kind": "h2", "credit": rng.choice(["auto", "none"])}
     if first == "late_preface":
         d = rng.choice([0.5, 1.0 + 1e-3]) * T
         client.append(["advance", d])
@@ -137,9 +138,24 @@ def _gen_h2(rng, n, tier):
         d = rng.choice([0.5, 1.0, 1.0 + 1e-3, 3.0]) * T
         client.append(["advance", d])
         t += d
-        kind = rng.choice(["stream", "stream", "ping", "settings", "two_streams", "sn404"])
+        kind = rng.choice(["stream", "stream", "ping", "settings", "two_streams", "sn404", "stream_rst"])
         if kind == "sn404" and first == "h2c":
             kind = "stream"
+        if kind == "stream_rst":
+            # a request the client gives up on: from its RST_STREAM on the stream no longer keeps the connection busy
+            tag = n * 10 + sid
+            delay = rng.choice([4 * T, 6 * T])
+            by_tag[str(tag)] = _app_delay(delay, tag)
+            client.append(["feed", fb.headers(sid, [(b":method", b"GET"), (b":scheme", b"http"), (b":path", b"/t%d" % tag),
+                                                    (b":authority", b"h.example")], end_stream=True)])
+            d2 = rng.choice([0.25, 0.5]) * T
+            client.append(["advance", d2])
+            t_rst = t + d2
+            client.append(["feed", fb.rst(sid, 8)])
+            marks.append({"kind": "stream", "t": t, "sid": sid, "delay": delay, "rst_at": t_rst})
+            t = t_rst
+            sid += 2
+            continue
         if kind in ("stream", "two_streams"):
             for _ in range(2 if kind == "two_streams" else 1):
                 tag = n * 10 + sid
@@ -166,7 +182,36 @@ def _gen_h2(rng, n, tier):
     return T, config, client, marks, by_tag, t, rspec
 
 
+def _gen_parked(rng, tier):
+    """Pipelined requests in one read; a write of the first response fails; the first application then finishes in every way an
+    application can (completes, returns with the response unfinished, raises, only after a while)."""
+    for i in range(160 if tier == "quick" else 4000):
+        T = rng.choice([1, 5])
+        base = 9000000 + i * 10
+        nreq = rng.choice([2, 3])
+        ending = rng.choice(["complete", "unfinished", "unfinished", "raise", "unfinished_later"])
+        sc = [["recv_until_end"], ["send", {"type": "http.response.start", "status": 200, "headers": []}],
+              ["send", {"type": "http.response.body", "body": b"part1", "more_body": True}]]
+        if ending == "complete":
+            sc.append(["send", {"type": "http.response.body", "body": b"part2", "more_body": False}])
+        elif ending == "raise":
+            sc.append(["raise", "Exception"])
+        elif ending == "unfinished_later":
+            sc.append(["sleep", 0.5 * T])
+        by_tag = {str(base): sc}
+        for k in range(1, nreq):
+            by_tag[str(base + k)] = _app_delay(0, base + k)
+        blob = b"".join(_req(base + k) for k in range(nreq))
+        client = [["mark", "fault"], ["fail_write_at", rng.choice([1, 2, 3])], ["feed", blob], ["settle"], ["advance", 3 * T], ["settle"]]
+        yield {"family": "h1.parked.fail_write." + ending, "backends": ["asyncio", "trio"],
+               "config": {"keep_alive_timeout": T, "server_names": ["h.example"]}, "conn": {},
+               "apps": {"default": _app_delay(0, 0), "by_tag": by_tag}, "client": client,
+               "truth": {"T": T, "marks": [], "fault": "fail_write", "h2": False, "parked": ending},
+               "sched": {"seed": rng.randrange(1 << 30)}, "horizon": 10 * T + 50}
+
+
 def gen(rng, tier):
+    yield from _gen_parked(rng, tier)
     for i in range(N_CASES[tier]):
         h2 = rng.random() < 0.35
         if h2:
@@ -277,6 +322,8 @@ def check(case, obs, tally):
                     break
                 s = rx.streams.get(m["sid"])
                 end = s.end_t if s is not None and (s.ended or s.rst is not None) else None
+                if m.get("rst_at") is not None and (closed_at is None or m["rst_at"] < closed_at - EPS):
+                    end = m["rst_at"] if end is None else min(end, m["rst_at"])
                 busy.append((m["t"], end, m["t"] + m.get("delay", 0), "error" if m.get("error") else "stream"))
     # ---- idle periods = complement of busy intervals ---------------------------------------
     # sweep: count of open busy intervals over time
@@ -306,8 +353,9 @@ def check(case, obs, tally):
         if ws_open and s >= ws_accept_t - EPS:
             break
         limit = s + T
-        if term_t is not None and term_t >= s - EPS and (e is None or term_t < e):
-            limit = min(limit, term_t)
+        if term_t is not None and (e is None or term_t < e):
+            # shutdown began inside this idle period, or earlier while a request was still in progress: closed at once
+            limit = min(limit, max(term_t, s))
         if lost_t is not None and lost_t <= limit + EPS:
             break  # the peer went away first: the release clause judges that
         if e is not None and e <= limit + EPS:
